@@ -97,6 +97,22 @@ def check(prop, tier, seed, replay_path=None, selftest=False, keep=False):
             args += ["-scripts", scripts, "-filter", "p2ext"]
         p = V.run(args, timeout=3600)
         info = json.loads(p.stdout.strip().splitlines()[-1])
+        race_runs = 0
+        if prop == "C11" and not replay_path:
+            # the racing first classifications once more under the race detector (its verdict is a sensor reading: a report that names
+            # csproto is an unexplainable event, any other report is a defect of the harness)
+            rdrv = corpus.build_race(scratch, cdir)
+            racelog = scratch.path("race-dispatch")
+            rargs = [rdrv, "-fam", cfg["fam"], "-seed", str(seed), "-random", "0", "-shards", "1", "-out", scratch.path("tr-race"), "-sets", "default",
+                     "-g", str(cfg.get("g", 8)), "-procs", str(cfg.get("procs", 4)), "-filter", "p2ext,p3/"]
+            V.run(rargs, timeout=3600, extra_env={"GORACE": "log_path=%s halt_on_error=0 exitcode=0" % racelog})
+            race_runs = 1
+            reports = glob.glob(racelog + "*")
+            if reports:
+                txt = "".join(open(x).read() for x in reports)
+                if "github.com/CrowdStrike/csproto" not in txt and "verif/corp/gen" not in txt:
+                    raise V.Inconclusive("race report not involving csproto or generated code (harness defect):\n" + txt[:1500])
+                verdicts.fail({"c": "race", "kind": "data-race"}, {"property": prop, "race_report": txt[:4000], "cfg": cfg, "seed": seed}, "race")
         files = sorted(glob.glob(outp + ".*.ndjson"))
         results = V.tlc_trace(scratch, "TraceDispatch", "TraceDispatch.cfg", files, label="tv-" + prop)
         seen, nont, samples = set(), set(), []
@@ -166,7 +182,7 @@ def check(prop, tier, seed, replay_path=None, selftest=False, keep=False):
                "evaluations": nev, "distinct_nontrivial": len(nont), "distinct_cases": len(seen), "rule": RULES[prop], "samples": samples,
                "exhaustive": prop == "C12", "expected_violation_configs": expected,
                "tlc_generated_scripts": len(open(scripts).read().splitlines()) if scripts else 0,
-               "tlaps": tlaps,
+               "tlaps": tlaps, "race_detector_runs": race_runs if prop == "C11" else 0,
                "matrix_cells": {"reachable_in_model": len(cells), "covered_by_recorded_calls": len(cells & covered), "not_covered": missing} if cells is not None else None,
                "explanation": ("TLC model checking: " + "; ".join("%s/%s %d states" % (m["module"], m["cfg"], m["states"]) for m in mcs) + ". " if mcs else
                                "") +
